@@ -576,13 +576,19 @@ static std::string ukfcs(Toks& t) {
         // subject (before fix 5117f2c it paired the previous step's innovations_ with a predicted_meas_ overwritten
         // by the failed transform); C04 speaks of successful steps only.
         std::pair<bool, VectorXd> likU(false, VectorXd()), likK(false, VectorXd());
-        if (fail == 0 && !cskipping) likU = uc->getLikelihood();
+        bool lik_stable = true;
+        if (fail == 0 && !cskipping) {
+            likU = uc->getLikelihood();
+            auto again = uc->getLikelihood();   // a query must not change what the next query answers
+            lik_stable = (again.first == likU.first) && (again.second.size() == likU.second.size()) &&
+                         (likU.second.size() == 0 || std::memcmp(again.second.data(), likU.second.data(), sizeof(double) * likU.second.size()) == 0);
+        }
         kc.correct(pred, corrK);
         if (fail == 0 && !cskipping) likK = kc.getLikelihood();
         if (s > 0) o.s(";;");
         o.n((long)X.rows()); o.n((long)X.cols());
         outGMs(o, corrU); outLik(o, likU); outGMs(o, corrK); outLik(o, likK); o.m(X);
-        o.s(s0.same(pred) ? "in-same" : "in-modified");
+        o.s(s0.same(pred) ? "in-same" : "in-modified"); o.s(lik_stable ? "lik2-same" : "lik2-differs");
     }
     t.done();
     return o.str();
